@@ -4,10 +4,13 @@
     (filter skip|include absent|nil|true|false|other)   → (keep true|false) | panicked
     (float boolean|integer|finite|nan|posinf|neginf|other) → number | nonFinite | rejected
     (recover none|syntaxError|foreign) → returned | returnedWithError | repanicked
+    (wsaccept <isSub> notCalled|error|nilStream|other|(stream k) (<frame>*))  frame = c | (d <hasDataKey> <dataIsNull> <nErrors>) → true | false
+    (wsdispatch old|new <didInit> <kind> <closeCode|-> <acks> <pongs> <started>) → true | (expected …)
 -/
 import ApiFu.Common.Sexp
 import ApiFu.Common.Loop
 import ApiFu.C03.Model
+import ApiFu.C03.Ws
 
 open ApiFu ApiFu.C03
 
@@ -42,6 +45,35 @@ def handle (line : String) : String :=
     match r with
     | some r => (match recoverDoc r with | .returned => "returned" | .returnedWithError => "returnedWithError" | .repanicked => "repanicked")
     | none => "bad-op"
+  | some (Sexp.list [Sexp.atom "wsaccept", isSub, seen, Sexp.list frames]) =>
+    let seen? : Option SubSeen := match seen with
+      | Sexp.atom "notCalled" => some .notCalled | Sexp.atom "error" => some .error
+      | Sexp.atom "nilStream" => some .nilStream | Sexp.atom "other" => some .other
+      | Sexp.list [Sexp.atom "stream", k] => k.nat?.map .stream
+      | _ => none
+    let frame? : Sexp → Option Frame
+      | Sexp.atom "c" => some .complete
+      | Sexp.list [Sexp.atom "d", hd, dn, ne] =>
+        match hd.atom?.bind boolOf, dn.atom?.bind boolOf, ne.nat? with
+        | some hd, some dn, some ne => some (.data { hasDataKey := hd, dataIsNull := dn, nErrors := ne })
+        | _, _, _ => none
+      | _ => none
+    match isSub.atom?.bind boolOf, seen?, frames.mapM frame? with
+    | some isSub, some seen, some fs => toString (wsAccept isSub seen fs)
+    | _, _, _ => "bad-op"
+  | some (Sexp.list [Sexp.atom "wsdispatch", Sexp.atom proto, didInit, Sexp.atom kind, Sexp.atom close, acks, pongs, started]) =>
+    let p? : Option Proto := match proto with | "old" => some .old | "new" => some .new | _ => none
+    let f? : Option ClientFrame := match kind with
+      | "malformed" => some .malformed | "init" => some .init | "start-ok" => some (.start true)
+      | "start-bad" => some (.start false) | "stop" => some .stop | "terminate" => some .terminate
+      | "ping" => some .ping | "pong" => some .pong | "unknown" => some .unknown | _ => none
+    let close? : Option (Option Nat) := if close == "-" then some none else close.toNat?.map some
+    match p?, didInit.atom?.bind boolOf, f?, close?, acks.nat?, pongs.nat?, started.atom?.bind boolOf with
+    | some p, some di, some f, some cl, some a, some po, some st =>
+      let want := observe di (dispatch p di f)
+      let got : Obs := { closeCode := cl, acks := a, pongs := po, started := st }
+      if obsMatches want got then "true" else s!"(expected close={want.closeCode} acks={want.acks} pongs={want.pongs} started={want.started})"
+    | _, _, _, _, _, _, _ => "bad-op"
   | _ => "bad-op"
 
 def main : IO Unit := lineLoopPure handle
